@@ -319,7 +319,11 @@ pub fn run_life_family(ctx: &Ctx, report: &mut Report, which: &'static str) {
             }
         });
     }
-    let results: anyhow::Result<Vec<(u64, Vec<LEv>, Bad)>> = block_on(async {
+    let results: anyhow::Result<Vec<(u64, Vec<LEv>, Bad)>> = {
+        // (its own runtime: all histories of a worker run inside this one future, which may take
+        // longer than the hang detector of `sut::block_on` allows on a loaded machine)
+        let rt = super::live::runtime();
+        rt.block_on(async {
         let node = api_node().await?;
         let mut out = vec![];
         for (ord, hist) in cases {
@@ -328,7 +332,8 @@ pub fn run_life_family(ctx: &Ctx, report: &mut Report, which: &'static str) {
         }
         shutdown(&node).await;
         Ok(out)
-    });
+        })
+    };
     match results {
         Err(e) => report.machinery_error(format!("docs API family: cannot set up a node: {e:#}")),
         Ok(rs) => {
